@@ -1231,8 +1231,17 @@ class TransactionBuilder:
             )
 
     def _ref_script_size(self):
+        # The ledger charges for the script carried by every UTxO that the transaction spends or references,
+        # once per UTxO (not per distinct script).
         ref_script_size = 0
-        for s in self._reference_scripts:
+        counted: List[TransactionInput] = []
+        for utxo in list(self.inputs) + [
+            i for i in self.reference_inputs if isinstance(i, UTxO)
+        ]:
+            s = utxo.output.script
+            if s is None or utxo.input in counted:
+                continue
+            counted.append(utxo.input)
             if isinstance(s, NativeScript):
                 ref_script_size += len(s.to_cbor())
             else:
